@@ -4,6 +4,7 @@ package main
 import (
 	"bufio"
 	"bytes"
+	"compress/flate"
 	"fmt"
 	"io"
 	"reflect"
@@ -16,6 +17,10 @@ import (
 	"verifmc/refmodel"
 	"verifmc/streams"
 	"verifshim/vsync"
+
+	"github.com/gobwas/ws"
+	"github.com/gobwas/ws/wsflate"
+	"github.com/gobwas/ws/wsutil"
 )
 
 type stream struct {
@@ -358,6 +363,157 @@ func main() {
 			t.Outcome("delivered-as-model")
 		})
 
+		// Messages read through a chain of receive extensions: the peer compresses some messages
+		// (RSV1 on the first frame, RFC 7692) and sends the others as they are; the application
+		// asks the permessage-deflate message state of the chain whether to inflate. Whatever the
+		// other extensions of the chain are and wherever the state stands in it, every message
+		// comes out with the exact bytes that were sent and every ping reaches the handler.
+		r.Part("E7-messages-through-an-extension-chain", func(t *explore.T) {
+			type msg struct {
+				compressed bool
+				frags      int
+				ping       bool
+			}
+			var menu []msg
+			for _, c := range []bool{true, false} {
+				for _, f := range []int{1, 2, 3} {
+					for _, p := range []bool{false, true} {
+						if p && f == 1 {
+							continue
+						}
+						menu = append(menu, msg{c, f, p})
+					}
+				}
+			}
+			var seqs [][]msg
+			var gen func(cur []msg, n int)
+			gen = func(cur []msg, n int) {
+				if len(cur) > 0 {
+					seqs = append(seqs, append([]msg{}, cur...))
+				}
+				if n == 0 {
+					return
+				}
+				for _, m := range menu {
+					gen(append(cur, m), n-1)
+				}
+			}
+			gen(nil, t.Pick(3, 4))
+			texts := []string{strings.Repeat("compressed payload ", 12), "plain payload, sent as it is", strings.Repeat("ab", 70), "x"}
+			chains := []string{"state", "marker,state", "state,marker", "marker,marker3,state", "identity,state"}
+			t.Par(len(seqs), func(i int) {
+				seq := seqs[i]
+				for _, server := range []bool{false, true} {
+					var wire []byte
+					var wantMsgs []string
+					pings := 0
+					for mi, m := range seq {
+						text := texts[(mi+len(seq))%len(texts)]
+						wantMsgs = append(wantMsgs, text)
+						p := []byte(text)
+						if m.compressed {
+							var err error
+							p, err = wsflate.DefaultHelper.Compress(p)
+							if err != nil {
+								panic(err)
+							}
+						}
+						for k := 0; k < m.frags; k++ {
+							part := p[k*len(p)/m.frags : (k+1)*len(p)/m.frags]
+							h := refmodel.Hdr{Fin: k == m.frags-1, Op: 0, Masked: server, Mask: streams.Masks[(mi+k)%3], Len: uint64(len(part))}
+							if k == 0 {
+								h.Op = 1
+								if m.compressed {
+									h.Rsv = 4
+								}
+							}
+							wire = append(wire, refmodel.Frame{H: h, Payload: part}.Wire()...)
+							if m.ping && k != m.frags-1 {
+								wire = append(wire, refmodel.Frame{H: refmodel.Hdr{Fin: true, Op: 9, Masked: server, Mask: streams.Masks[1], Len: 2}, Payload: []byte("hi")}.Wire()...)
+								pings++
+							}
+						}
+					}
+					for _, chain := range chains {
+						for _, chunk := range []int{0, 1, 5} {
+							server, chain, chunk := server, chain, chunk
+							t.Do(func() string {
+								return fmt.Sprintf("server=%v messages=%+v chain=[%s] transport chunk=%d", server, seq, chain, chunk)
+							}, func() *explore.Fail {
+								src := env.NewSrc(wire)
+								src.Policy = env.FixedChunk(chunk)
+								var state wsflate.MessageState
+								var exts []wsutil.RecvExtension
+								for _, name := range strings.Split(chain, ",") {
+									switch name {
+									case "state":
+										exts = append(exts, &state)
+									case "marker":
+										exts = append(exts, wsutil.RecvExtensionFunc(func(h ws.Header) (ws.Header, error) {
+											r1, _, r3 := ws.RsvBits(h.Rsv)
+											h.Rsv = ws.Rsv(r1, false, r3)
+											return h, nil
+										}))
+									case "marker3":
+										exts = append(exts, wsutil.RecvExtensionFunc(func(h ws.Header) (ws.Header, error) {
+											r1, r2, _ := ws.RsvBits(h.Rsv)
+											h.Rsv = ws.Rsv(r1, r2, false)
+											return h, nil
+										}))
+									case "identity":
+										exts = append(exts, wsutil.RecvExtensionFunc(func(h ws.Header) (ws.Header, error) { return h, nil }))
+									}
+								}
+								st := ws.StateClientSide | ws.StateExtended
+								if server {
+									st = ws.StateServerSide | ws.StateExtended
+								}
+								got := 0
+								rd := &wsutil.Reader{Source: src, State: st, Extensions: exts,
+									OnIntermediate: func(h ws.Header, r io.Reader) error {
+										p, err := io.ReadAll(r)
+										if h.OpCode == ws.OpPing && string(p) == "hi" {
+											got++
+										}
+										return err
+									}}
+								fr := wsflate.NewReader(nil, func(r io.Reader) wsflate.Decompressor { return flate.NewReader(r) })
+								for mi := range seq {
+									h, err := rd.NextFrame()
+									if err != nil {
+										return explore.Failf("message-refused", "message %d: NextFrame: %v", mi, err)
+									}
+									if h.OpCode != ws.OpText {
+										return explore.Failf("opcode-wrong", "message %d: %+v", mi, h)
+									}
+									var from io.Reader = rd
+									if state.IsCompressed() {
+										fr.Reset(rd)
+										from = fr
+									}
+									p, err := io.ReadAll(from)
+									if err != nil {
+										return explore.Failf("message-read-fails", "message %d (compressed=%v, state says %v): %v", mi, seq[mi].compressed, state.IsCompressed(), err)
+									}
+									if string(p) != wantMsgs[mi] {
+										return explore.Failf("payload-differs", "message %d (compressed=%v, state says %v): got %q want %q", mi, seq[mi].compressed, state.IsCompressed(), p, wantMsgs[mi])
+									}
+								}
+								if _, err := rd.NextFrame(); err != io.EOF {
+									return explore.Failf("end-not-EOF", "after the last message: %v", err)
+								}
+								if got != pings {
+									return explore.Failf("pings-lost", "handler saw %d of %d pings", got, pings)
+								}
+								return nil
+							})
+						}
+					}
+				}
+			})
+			t.Outcome("delivered-as-sent")
+		})
+
 		// Text messages of 1..40 bytes with one multi-byte character at every offset (and a second
 		// one right behind it or at the end): the read helpers and the UTF-8-checking reader
 		// deliver them unchanged, under every chunking - a valid message is never refused.
@@ -392,7 +548,9 @@ func main() {
 					for _, d := range checked {
 						for _, ch := range []int{0, 1, 8, 9, 16} {
 							d, ch := d, ch
-							t.Do(func() string { return fmt.Sprintf("%s text %q whole and in two fragments, driver=%s chunk=%d", side, txt, d.Name, ch) }, func() *explore.Fail {
+							t.Do(func() string {
+								return fmt.Sprintf("%s text %q whole and in two fragments, driver=%s chunk=%d", side, txt, d.Name, ch)
+							}, func() *explore.Fail {
 								src := env.NewSrc(data)
 								src.Policy = env.FixedChunk(ch)
 								var res drivers.Result
